@@ -337,4 +337,40 @@ theorem collectParen_balanced (ts : List Tok) (d : Nat) (parts : List (List Char
       simp only [List.cons_append, collectParen]
       rw [ih _ _ h]; simp
 
+/-! ### heap frame lemmas (ClassNode.clone) -/
+
+theorem modify_getElem? (h : Heap) (s : Nat) (f : Frame → Frame) (i : Nat) :
+    (modify h s f)[i]? = if i = s then (h[s]?).map f else h[i]? := by
+  unfold modify
+  cases hs : h[s]? with
+  | none =>
+    by_cases e : i = s
+    · subst e; simp [hs]
+    · simp [e]
+  | some fr =>
+    simp only [List.getElem?_set]
+    by_cases e : i = s
+    · subst e
+      have : i < h.length := by
+        rcases Nat.lt_or_ge i h.length with l | l
+        · exact l
+        · simp [List.getElem?_eq_none l] at hs
+      simp [this]
+    · have e' : ¬ s = i := fun x => e x.symm
+      simp [e, e']
+
+theorem modify_length (h : Heap) (s : Nat) (f : Frame → Frame) : (modify h s f).length = h.length := by
+  unfold modify; cases h[s]? <;> simp
+
+theorem clone_spec (h : Heap) (p : Nat) :
+    (clone h p).2 = h.length ∧ h.length ≤ (clone h p).1.length ∧
+    ∀ i, i < h.length → (clone h p).1[i]? = h[i]? := by
+  unfold clone
+  cases h[p]? with
+  | none => simp
+  | some fr =>
+    refine ⟨rfl, by simp, ?_⟩
+    intro i hi
+    simp [List.getElem?_append_left hi]
+
 end Shroud.Scope
